@@ -527,8 +527,23 @@ func vpGenRequest(t *rapid.T, idx int, o vpGenOpts) vpGenReq {
 	b.WriteString(leading)
 	b.WriteString(reqLine)
 	b.WriteString("\r\n")
+	// field names are case-insensitive: now and then a request spells them differently (valid HTTP; with
+	// DisableHeaderNamesNormalizing the server sees them exactly so)
+	recase := rapid.IntRange(0, 5).Draw(t, "recaseNames")
 	for _, h := range hdrs {
-		b.WriteString(h.name + h.sep + h.value + h.eol)
+		name := h.name
+		switch {
+		case recase == 0:
+			name = strings.ToLower(name)
+		case recase == 1:
+			name = strings.ToUpper(name)
+		case recase == 2 && len(name) > 1:
+			name = strings.ToLower(name[:1]) + strings.ToUpper(name[1:])
+		}
+		b.WriteString(name + h.sep + h.value + h.eol)
+	}
+	if recase <= 2 && len(hdrs) > 0 {
+		ops = append(ops, "recased-names")
 	}
 	b.WriteString(terminator)
 	b.Write(wire)
